@@ -224,6 +224,18 @@ def quick_plans(rng, thorough):
             add(sch, stm=sm, str=sm, layout="classic", n_overrides=0, em=True, crypt_family=True, extra_cf=[[b"Other".hex(), xm]],
                 force_named=[["dct0", "arr", ident], ["dct1", "arr", b"Other".hex()], ["plain0", "dict", ident], ["plain1", "dict", b"Other".hex()],
                              ["plain2", "arr", ident]])
+        # extension (method selection for every dictionary): /EFF naming another filter than /StmF (readers decrypt attachments and
+        # every other stream per /StmF; --show-encryption's file method follows /EFF), /CF entries that are not dictionaries or have an
+        # unknown /CFM and that nothing refers to, /StmF absent with /EFF present, a one-element /Filter array with ONE /DecodeParms
+        # dictionary, and crypt filter entries in a V < 4 dictionary (meaningless there: everything is RC4)
+        sc, tc = b"StmCF".hex(), b"StrCF".hex()
+        add("V4R4", stm="2", str="1", stm_name=sc, str_name=tc, eff=tc, junk_cf=True, n_overrides=0, layout="classic",
+            force_named=[["plain0", "arr1-dict", tc], ["plain1", "arr1-dict", ident]])
+        add("V5R5", stm="3", str="0", stm_name=sc, str_name=tc, identity_style="absent", eff=ident, junk_cf=True, n_overrides=0,
+            force_named=[["plain0", "arr1-dict", ident], ["plain1", "arr1-dict", sc]])
+        add("V4R4", stm="0", str="2", stm_name=sc, str_name=tc, identity_style="absent", eff=tc, junk_cf=True, n_overrides=1)
+        add("V2R3", keylen=16, lt4_junk=True)
+        add("V1R2", lt4_junk=True, layout="classic")
         # signature dictionaries: /Contents is never encrypted; with and without the optional /Type /Sig
         add("V4R4", stm="2", str="2", sig="typed", layout="classic")
         add("V5R5", stm="3", str="3", sig="typed", layout="classic")
@@ -336,6 +348,8 @@ class EncOut:
         if isinstance(e.get(b"CF"), dict):
             for k, v in e[b"CF"].items():
                 m = v.get(b"CFM") if isinstance(v, dict) else None
+                if not isinstance(v, dict) or (isinstance(m, Name) and m.b not in METHOD_OF_CFM):
+                    continue        # not a crypt filter the standard defines (copied from an input that had such an unreferenced entry)
                 cf[k] = METHOD_OF_CFM.get(m.b if isinstance(m, Name) else b"None", "?")
         stmf = e[b"StmF"].b if isinstance(e.get(b"StmF"), Name) else gen.IDENTITY
         strf = e[b"StrF"].b if isinstance(e.get(b"StrF"), Name) else gen.IDENTITY
@@ -613,6 +627,9 @@ def f12_class(ef, num):
 def file_signatures(ef):
     """signatures of the known-finding input classes a file belongs to (for observations that cannot be attributed to one leaf)"""
     sigs = []
+    if ef.V < 4 and ef.plan.get("lt4_junk") and ef.rootmeta is not None:
+        # writer side (preservation / --copy-encryption): /EncryptMetadata false copied from a V < 4 dictionary (finding F13)
+        sigs.append(SIG_PREFIX + "preserve-encryptmetadata-below-v4")
     if any(f11_class(ef, l) for l in ef.leaves):
         sigs.append(SIG_PREFIX + "key-cache-ignores-aes")
     if ef.plan.get("sig") == "untyped" and any(l["kind"] == "s:g0" for l in ef.leaves):
@@ -622,6 +639,9 @@ def file_signatures(ef):
     for n, (form, name) in sorted(ef.override.items()):
         if form in gen.FORMS_DEFAULTED and form not in ("noname", "notype-arr"):
             sigs.append(SIG_PREFIX + "crypt-filter-defaults:" + form)
+    if any(form == "arr1-dict" for form, name in ef.override.values()):
+        # writer side (finding F14): eraseItem on the ONE /DecodeParms dictionary of /Filter [/Crypt] when the stream is copied unfiltered
+        sigs.append(SIG_PREFIX + "crypt-array-one-dict-erase-warning")
     return sigs
 
 
@@ -667,7 +687,67 @@ def part_files(chk, run, drv, perms_spec):
         plans = [p for p in plans if p["idx"] in keep]
     efs = build_files(chk, plans, run, work)
     judge_files(chk, efs, run, drv, work, rng, perms_spec)
+    part_dq(chk, efs, run)
     return efs
+
+
+def part_dq(chk, efs, run):
+    """extension: the ISO rule for ARBITRARY encryption dictionaries (extracted Crypto/DqIso.v) and the executable class of the recorded
+    findings (Crypto/DqReader.dq_in_finding_class) on the dictionary each generated file really carries and on every leaf of it:
+    the rule must give the method the reference encryptor used (IsoEnc.v, a different formulation) and the class must be exactly the
+    leaves whose input class has a recorded signature (F1 crypt-filter-defaults, F2 cfm-none-explicit, F10 sig-contents-without-type);
+    together with files-leaves (implementation = plaintext on every leaf without a signature) this is the checked form of
+    dq_method_selection_*: outside the class the implementation undoes the method the standard prescribes."""
+    lines, meta = [], []
+    for ef in efs:
+        rd = gen.rdict_tokens(ef.encdict)
+        for l in ef.leaves:
+            lines.append("dqcase " + " ".join(rd + [l["kind"]]))
+            meta.append((ef, l))
+    out = run(lines, shards=4)
+    bad, classes = [], set()
+    F = ("crypt-filter-defaults", "cfm-none-explicit", "sig-contents-without-type")
+    for (ef, l), o in zip(meta, out):
+        f = o.split()
+        if len(f) != 3:
+            bad.append((describe(ef), leaf_key(l), l["kind"], "runner: " + o[:80], ""))
+            continue
+        sig = leaf_signature(ef, l)
+        in_sig = any(x in sig for x in F)
+        e = ef.encdict
+        cfd = e.get(b"CF") if isinstance(e.get(b"CF"), dict) else {}
+        classes.add((ef.V, f[0], f[1], f[2], "EFF" if b"EFF" in e else "", "StmF" if b"StmF" in e else "", "StrF" if b"StrF" in e else "",
+                     "cf-notdict" if any(not isinstance(v, dict) for v in cfd.values()) else "",
+                     "cf-unknown" if any(isinstance(v, dict) and v.get(b"CFM") == gen.Name(b"Foo") for v in cfd.values()) else "",
+                     "cf-none-explicit" if any(isinstance(v, dict) and v.get(b"CFM") == gen.Name(b"None") for v in cfd.values()) else "",
+                     "cf-no-cfm" if any(isinstance(v, dict) and b"CFM" not in v for v in cfd.values()) else "",
+                     leaf_class(ef, l)))
+        if f[0] != l.get("method"):
+            bad.append((describe(ef), leaf_key(l), l["kind"], "ISO rule on the written dictionary: method " + f[0],
+                        "reference encryptor used method " + str(l.get("method"))))
+        elif (f[1] == "1") != in_sig:
+            bad.append((describe(ef), leaf_key(l), l["kind"], "dq_in_finding_class = " + f[1], "recorded signature of the leaf: %r" % sig))
+    # the method --show-encryption / QPDF::isEncrypted report for attachments against Table 20's /EFF rule (V 4 and 5)
+    seen = set()
+    for (ef, l), o in zip(meta, out):
+        f = o.split()
+        if id(ef) in seen or len(f) != 3 or ef.V < 4 or not hasattr(ef, "impl_methods"):
+            continue
+        seen.add(id(ef))
+        got = {"n": "0", "r": "1", "a": "2", "3": "3"}.get(ef.impl_methods[2], ef.impl_methods[2])
+        classes.add(("file-method", ef.V, f[2], got, "EFF" if b"EFF" in ef.encdict else ""))
+        if f[2] != "?" and got != f[2]:
+            eff = ef.encdict.get(b"EFF")
+            gov = eff.b if isinstance(eff, Name) else ef.stmf
+            sig = SIG_PREFIX + "cfm-none-explicit" if (ef.plan.get("none_style") == "explicit" and ef.cf.get(gov) == "0") else ""
+            chk.violation({"kind": "property-fails-on-implementation", "part": "dq-rule",
+                           "what": "the crypt filter method reported for attachments (QPDF::isEncrypted file_method) is %s, Table 20 (/EFF, by default /StmF) gives %s" % (got, f[2]),
+                           "case": describe(ef)}, signature=sig)
+    if bad:
+        t = bad[0]
+        chk.violation({"kind": "correspondence-broken", "correspondence": "corr:C06:dq-rule", "differing_cases": len(bad), "first_case": t[0], "leaf": t[1],
+                       "leaf_kind": t[2], "specification": t[3], "model": t[4]}, no_input=True)
+    chk.count("dq-rule", len(lines), classes, samples=[{"case": lines[0][:200], "result (iso method, in finding class, iso file method)": out[0]}] if lines else [])
 
 
 def judge_files(chk, efs, run, drv, work, rng, perms_spec=None, cli=True):
@@ -745,6 +825,8 @@ def judge_files(chk, efs, run, drv, work, rng, perms_spec=None, cli=True):
                 got += " " + im["perms"] + " " + im["upw"] + " " + im["padded"] + " warn=" + ("perms" if "/Perms" in im["warnings"] else "-")
                 mod += " " + mf[14] + " " + mf[15] + " " + mf[10] + " warn=" + ("perms" if "perms" in mf[13] else "-")
                 state_of.setdefault(id(ef), (mf[1:13], role))
+                if not hasattr(ef, "impl_methods"):
+                    ef.impl_methods = im["methods"]
         else:
             got = "err " + im.get("code", "?")
             mod = " ".join(mf[:2])
@@ -1041,6 +1123,9 @@ def cli_part(chk, efs, run, drv, work, rng):
             s3 = first_sig(ef)
             if kind in ("preserve", "copyenc", "copyself") and ef.plan.get("length_style") == "absent" and ef.V in (2, 4, 5):
                 s3 = SIG_PREFIX + "preserve-without-length"
+            if not s3 and "ignoring attempt to erase item" in err and any(fm == "arr1-dict" for fm, _ in ef.override.values()):
+                # writer side (finding F14): /Filter [/Crypt] with ONE /DecodeParms dictionary, stream copied without re-filtering
+                s3 = SIG_PREFIX + "crypt-array-one-dict-erase-warning"
             bad("warnings while reading a well-formed encrypted file", signature=s3)
         if kind == "decrypt":
             to_strict.append(outp)
@@ -1199,6 +1284,165 @@ def json_compare(ef, objs, trailer):
         return str(e)
 
 
+# ---------------------------------------------------------------- extension: arbitrary ("wild") encryption dictionaries
+WILD_NAMES = [b"A", b"B", b"StdCF", b"Identity"]
+CFDP_N = Name(b"CryptFilterDecodeParms")
+
+
+def wild_dict(rng, V):
+    """an encryption dictionary aimed at the case splits of EncryptionParameters::initialize / interpretCF: /CF values that are not
+    dictionaries, /CFM V2 / AESV2 / AESV3 / None / absent / unknown / not a name, an entry called Identity, /StmF /StrF /EFF absent, defined,
+    undefined, /EncryptMetadata absent / true / false / not a boolean - for every /V (below 4 all of it must be ignored)"""
+    R = {1: 2, 2: 3, 4: 4, 5: 5}[V]
+    n = 48 if V == 5 else 32
+    e = {b"Filter": Name(b"Standard"), b"V": V, b"R": R, b"O": Str(bytes(rng.randrange(256) for _ in range(n))),
+         b"U": Str(bytes(rng.randrange(256) for _ in range(n))), b"P": rng.choice([-4, -3904, -1])}
+    if V == 2:
+        e[b"Length"] = 128
+    if V == 5:
+        e[b"OE"], e[b"UE"], e[b"Perms"] = Str(bytes(32)), Str(bytes(32)), Str(bytes(16))
+    if rng.random() < 0.9:
+        cf = {}
+        for nm in rng.sample(WILD_NAMES, rng.choice([0, 1, 2, 3, 4])):
+            k = rng.randrange(9)
+            if k == 0:
+                cf[nm] = rng.choice([7, None, Name(b"V2")])
+            else:
+                ent = {b"Type": Name(b"CryptFilter")}
+                m = [None, b"None", b"V2", b"AESV2", b"AESV3", b"Foo", b"V2", b"AESV2"][k - 1]
+                if m is not None:
+                    ent[b"CFM"] = Name(m) if rng.random() < 0.93 else Str(m)
+                cf[nm] = ent
+        if cf or rng.random() < 0.5:
+            e[b"CF"] = cf
+    for key in (b"StmF", b"StrF", b"EFF"):
+        if rng.random() < 0.75:
+            e[key] = Name(rng.choice(WILD_NAMES + [b"Missing", b"Identity"]))
+    k = rng.randrange(5)
+    if k < 3:
+        e[b"EncryptMetadata"] = [True, False, 0][k]
+    return e
+
+
+def wild_stream_dicts(rng):
+    """the /Filter x /DecodeParms shapes aimed at the case splits of QPDF::decryptStream"""
+    nm = lambda: Name(rng.choice(WILD_NAMES + [b"Missing"]))
+    full = lambda: {b"Type": CFDP_N, b"Name": nm()}
+    C, X = Name(b"Crypt"), Name(b"ASCIIHexDecode")
+    shapes = [
+        {}, {b"Filter": C}, {b"Filter": C, b"DecodeParms": full()}, {b"Filter": C, b"DecodeParms": {b"Name": nm()}},
+        {b"Filter": C, b"DecodeParms": {b"Type": CFDP_N}}, {b"Filter": C, b"DecodeParms": {b"Type": Name(b"Other"), b"Name": nm()}},
+        {b"Filter": C, b"DecodeParms": [full()]}, {b"Filter": C, b"DecodeParms": []}, {b"Filter": C, b"DecodeParms": None},
+        {b"Filter": [C], b"DecodeParms": full()}, {b"Filter": [C], b"DecodeParms": [full()]}, {b"Filter": [C], b"DecodeParms": [None]},
+        {b"Filter": [C]}, {b"Filter": [C], b"DecodeParms": [{b"Name": nm()}]}, {b"Filter": [C], b"DecodeParms": [{b"Type": CFDP_N}]},
+        {b"Filter": [X, C], b"DecodeParms": [None, full()]}, {b"Filter": [X, C], b"DecodeParms": [full(), None]},
+        {b"Filter": [X, C], b"DecodeParms": full()}, {b"Filter": [X, C], b"DecodeParms": [None, full(), None]},
+        {b"Filter": [C, X], b"DecodeParms": [{b"Name": nm()}, None]}, {b"Filter": [7, C], b"DecodeParms": [None, full()]},
+        {b"Filter": [C, C], b"DecodeParms": [{b"Name": nm()}, {b"Name": nm()}]}, {b"Filter": X}, {b"Filter": [X]},
+        {b"Filter": X, b"DecodeParms": full()}, {b"Filter": [C], b"DecodeParms": [7]},
+    ]
+    return [dict(d) for d in rng.sample(shapes, 7)]
+
+
+def part_wild(chk, run, drv):
+    """model vs library on ARBITRARY encryption dictionaries (well formed or not) opened with the file key: the methods initialize() arrives at
+    and, byte for byte, what every string and stream comes back as (the ciphertext is arbitrary); where the ISO rule of DqIso.v defines
+    the method and the leaf is outside dq_in_finding_class, the model's method must be that method (dq_method_selection_*, on the
+    extracted code)"""
+    rng = chk.rng
+    work = common.workdir("C06")
+    nfiles = 48 if chk.tier != "thorough" else 600
+    files = []
+    for i in range(nfiles):
+        V = [1, 2, 4, 5, 4, 5][i % 6]
+        e = wild_dict(rng, V)
+        key = bytes(rng.randrange(256) for _ in range({1: 5, 2: 16, 4: 16, 5: 32}[V]))
+        D = pdfgen.Doc()
+        D.version = b"1.7"
+        blob = lambda: bytes(rng.randrange(256) for _ in range(rng.choice([0, 16, 32, 48, 64, 32, 48])))
+        D.objects[1] = {b"Type": Name(b"Catalog"), b"Pages": Ref(2), b"Metadata": Ref(5), b"Info6": Ref(6)}
+        D.objects[2] = {b"Type": Name(b"Pages"), b"Kids": [Ref(3)], b"Count": 1}
+        D.objects[3] = {b"Type": Name(b"Page"), b"Parent": Ref(2), b"MediaBox": [0, 0, 10, 10], b"Contents": Ref(4)}
+        D.objects[4] = Stream({}, blob())
+        md = {b"Type": Name(b"Metadata"), b"Subtype": Name(b"XML")}
+        if rng.random() < 0.3:
+            md.update(rng.choice(wild_stream_dicts(rng)))
+        D.objects[5] = Stream(md, blob())
+        D.objects[6] = {b"A": Str(blob()), b"B": [Str(blob()), {b"C": Str(blob())}]}
+        for k, sd in enumerate(wild_stream_dicts(rng)):
+            if rng.random() < 0.3:
+                sd[b"Note"] = Str(blob())
+            D.objects[7 + k] = Stream(sd, blob())
+        id0 = bytes(rng.randrange(256) for _ in range(16))
+        tr = {b"Root": Ref(1), b"Encrypt": e, b"ID": [Str(id0), Str(id0)]}
+        path = os.path.join(work, "wild%03d.pdf" % i)
+        with open(path, "wb") as fh:
+            fh.write(gen.write_classic_sparse(D, tr))
+        files.append((path, V, e, key, id0, D))
+    impl = [parse_drv(o) for o in common.run_lines(drv, ["c6leaves %s H:%s 1" % (hexs(p.encode()), k.hex()) for p, V, e, k, i0, D in files], shards=4)]
+    opened = run(["c6open " + " ".join(gen.rdict_tokens(e) + [hexs(i0), "H:" + hexs(k)]) for p, V, e, k, i0, D in files], shards=4)
+    dl, meta = [], []
+    for (p, V, e, k, i0, D), mo in zip(files, opened):
+        mf = mo.split()
+        if mf[0] != "ok":
+            continue
+        rd = gen.rdict_tokens(e)
+        for n, o in sorted(D.objects.items()):
+            leaves = []
+
+            def walk(x, path_):
+                if isinstance(x, Str):
+                    leaves.append(("s:o", path_, x.b))
+                elif isinstance(x, list):
+                    for j, y in enumerate(x):
+                        walk(y, path_ + ("i%d" % j,))
+                elif isinstance(x, dict):
+                    for kk in sorted(x):
+                        walk(x[kk], path_ + ("k" + hexs(kk),))
+            walk(o.d if isinstance(o, Stream) else o, ())
+            if isinstance(o, Stream):
+                leaves.append((gen.sdict_token(o.d, n == 5), ("stream",), o.data))
+            for kind, path_, data in leaves:
+                lk = leaf_key({"num": n, "path": path_, "gen": 0})
+                dl.append("c6dec " + " ".join(mf[1:13] + [kind, str(n), "0", hexs(data)]))
+                dl.append("dqcase " + " ".join(rd + [kind]))
+                meta.append((p, V, lk, kind))
+    dout = run(dl, shards=4)
+    by_file = {p: im for (p, V, e, k, i0, D), im in zip(files, impl)}
+    tie, classes, nsel = [], set(), 0
+    for (p, V, e, k, i0, D), im, mo in zip(files, impl, opened):
+        mf = mo.split()
+        if im["ok"] != (mf[0] == "ok"):
+            tie.append((p, "-", "-", im.get("raw", "ok")[:120], mo[:120]))
+        elif im["ok"]:
+            mm = "".join(b if (a == "u" and b == "a") else a for a, b in zip(mf[6] + mf[7] + mf[8], im["methods"]))
+            if mm != im["methods"] or im["V"] != mf[1] or im["key"].lower() != mf[9].lower():
+                tie.append((p, "-", "initialize", "V=%s methods=%s key=%s" % (im["V"], im["methods"], im["key"]), " ".join(mf[1:10])))
+            classes.add(("open", V, mf[6] + mf[7] + mf[8], "CF" in [x.decode() for x in e], "EM" if b"EncryptMetadata" in e else ""))
+    for j, (p, V, lk, kind) in enumerate(meta):
+        im = by_file[p]
+        if not im["ok"]:
+            continue
+        d, q = dout[2 * j].split(), dout[2 * j + 1].split()
+        got = im["leaves"].get(lk)
+        mgot = d[1] if d[0] == "ok" else "!error"
+        kshape = kind if kind.startswith("s:") else ":".join(kind.split(":")[:2]) + ":" + re.sub(r"[0-9a-f]{2,}", "N", kind.split(":", 2)[2])
+        classes.add((V, kshape, d[3] if d[0] == "ok" else d[-1], q[0], q[1]))
+        if (got if got is not None else "absent") != mgot and not (got or "").startswith("!"):
+            tie.append((p, lk, kind, (got or "absent")[:120], dout[2 * j][:160]))
+        elif q[0] != "?" and q[1] == "0":
+            nsel += 1
+            if (d[3] if d[0] == "ok" else d[-1]) != q[0]:
+                tie.append((p, lk, kind, "ISO rule (DqIso.v) method " + q[0] + ", outside the finding class", "model: " + dout[2 * j][:100]))
+    if tie:
+        t = tie[0]
+        chk.violation({"kind": "correspondence-broken", "correspondence": "corr:C06:wild-dictionaries", "differing_cases": len(tie), "file": t[0], "leaf": t[1],
+                       "leaf_kind": t[2], "implementation": t[3], "model": t[4]}, no_input=True)
+    chk.count("wild-dictionaries", len(meta) + len(files), classes,
+              samples=[{"case": dl[0][:200], "model": dout[0][:120], "iso method / class": dout[1]}] if dl else [])
+    chk.cov["parts"]["wild-dictionaries"]["leaves_where_the_iso_rule_is_defined_outside_the_class"] = nsel
+
+
 # ---------------------------------------------------------------- documented password recovery (re-encodings)
 def recovery_part(chk, efs, run, drv, work):
     """user password stored in one encoding, supplied in another: opens with recovery, password error without"""
@@ -1249,11 +1493,14 @@ def run(chk):
                        "plus random /P; files: generated documents x {(V,R)} x {StmF, StrF methods independently} x crypt filter naming x /Crypt override forms x "
                        "{classic, object streams + xref stream} x /P spelling x /Length spelling x {user, owner, wrong, empty, hex key} through the library "
                        "(leaf by leaf) and the binary; non-trivial = distinct (scheme, methods, layout, role, outcome) resp. (scheme, leaf class, method) "
-                       "resp. (scheme, command, role, exit status)")
+                       "resp. (scheme, command, role, exit status); dq-rule: the extracted ISO rule for arbitrary dictionaries and the finding class on "
+                       "every leaf of every generated file; wild-dictionaries: arbitrary (also ill-formed) encryption dictionaries x /Filter x /DecodeParms "
+                       "shapes opened with the file key, library vs model byte for byte, model method vs ISO rule outside the finding class")
     perms = part_static(chk, runner)
     ps = lambda R, P: runner(["c6perms %d %d" % (R, P)])[0]
     try:
         part_files(chk, runner, drv, ps)
+        part_wild(chk, runner, drv)
     finally:
         runner.save()
     chk.cov["r6_memo"] = {"hits": runner.hits, "computed_now": runner.fresh}
